@@ -99,7 +99,7 @@ def resolve_func(spec):
         default = spec.get("default", 0)
 
         def sf(key, *a, _t=table, _d=default):
-            if isinstance(key, str) and key.isdigit() and spec.get("digits"):
+            if isinstance(key, str) and key.isdigit() and spec.get("digits") is not None:
                 return spec["digits"].get(key, _d)
             return _t.get(key, _d)
         sf.__name__ = "simple_table_hash"
@@ -129,6 +129,11 @@ def build(recipe):
     obj = cls(**kwargs)
     for op in recipe.get("ops", []):
         getattr(obj, op[0])(*[dec(a) for a in op[1:]])
+    for op in recipe.get("ops_tolerant", []):
+        try:
+            getattr(obj, op[0])(*[dec(a) for a in op[1:]])
+        except Exception:   # noqa: BLE001   (e.g. CuckooFilterFullError while building a nearly full table)
+            pass
     for slot, v in recipe.get("set", {}).items():
         setattr_deep(obj, slot, dec(v))
     return obj
@@ -186,6 +191,29 @@ def spec_globals():
     return g
 
 
+UNIVERSE = set()
+
+
+def ints_in(obj, out, depth=0):
+    """every int stored anywhere in a value (universe for natively evaluated `for f in allkeys()` clauses)"""
+    if depth > 6:
+        return
+    if isinstance(obj, bool):
+        return
+    if isinstance(obj, int):
+        out.add(obj)
+    elif isinstance(obj, (list, tuple, array, set)):
+        for x in obj:
+            ints_in(x, out, depth + 1)
+    elif isinstance(obj, dict):
+        for k, v in obj.items():
+            ints_in(k, out, depth + 1)
+            ints_in(v, out, depth + 1)
+    elif hasattr(type(obj), "__slots__") and type(obj).__module__.startswith("probables"):
+        for v in slots_of(obj).values():
+            ints_in(v, out, depth + 1)
+
+
 def eval_clause(text, env, old_env):
     tree = ast.parse(text, mode="eval")
     tree = OldRewriter(sorted(old_env)).visit(tree)
@@ -194,6 +222,11 @@ def eval_clause(text, env, old_env):
     g.update(env)
     g["__old"] = old_env
     g["__speq"] = spec_equal
+    uni = set()
+    for v in list(env.values()) + list(old_env.values()):
+        ints_in(v, uni)
+    base = g["allkeys"]
+    g["allkeys"] = lambda *maps: (base(*maps) if maps else sorted(uni))
     return bool(eval(compile(tree, "<clause>", "eval"), g))
 
 
@@ -319,6 +352,13 @@ def check_case(key, ctx, case, per_call_timeout=5.0):
         if spec.get("state", "unchanged") == "unchanged" and selfobj is not None \
                 and not same_value(selfobj, old_env["self"]):
             return {"clause": f"raises.{ename}.state", "observed": "state changed on the exceptional path"}
+        for name, text in spec.get("ensures", []):
+            try:
+                ok = eval_clause(text, env, old_env)
+            except Exception as e2:   # noqa: BLE001
+                return {"clause": f"raises.{ename}.{name}", "observed": f"clause evaluation raised {type(e2).__name__}: {e2}"}
+            if not ok:
+                return {"clause": f"raises.{ename}.{name}", "observed": f"{ename}: {exc}"}
         return None
     for ename, spec in c.raises.items():
         if spec.get("must", True) and eval_clause(spec["when"], old_env, {}):
